@@ -2,6 +2,7 @@ package main
 
 import (
 	"fmt"
+	"go/token"
 	"go/types"
 	"sort"
 	"strings"
@@ -217,5 +218,89 @@ func checkDCMIVersionGuards(c *Ctx, r *Report) {
 			continue // one layout for every version
 		}
 		r.Check(!usesRevision, nt.Obj().Name()+".DecodeFromBytes|layout guard", fn.Pos(), "guarded by major/minor version only", "the layout is selected by the parameter revision (byte 2): a v1.5 BMC reporting revision 1, or a v1.0 BMC reporting revision 2, is decoded in the wrong layout (DCMI 1.5 §6.1.1: the layout follows the specification conformance in bytes 0 and 1)")
+	}
+}
+
+// checkRejectedLayersNotAdded: the SDR retrieval (and any user of gopacket.NewPacket) learns
+// that a layer was rejected from its absence in the packet. The module's decoder adapters
+// therefore add a layer to the packet only on paths on which its DecodeFromBytes returned nil.
+func checkRejectedLayersNotAdded(c *Ctx, r *Report) {
+	r.Rule("rejected-layers-not-added", "a decoder adapter adds a layer to the packet under construction only after the layer's DecodeFromBytes returned nil", 1)
+	for _, fn := range c.LibFuncs() {
+		var dec, add []*ssa.Call
+		rawInstrs(fn, false, func(in ssa.Instruction) {
+			call, ok := in.(*ssa.Call)
+			if !ok || !call.Call.IsInvoke() {
+				return
+			}
+			switch call.Call.Method.Name() {
+			case "DecodeFromBytes":
+				dec = append(dec, call)
+			case "AddLayer":
+				if pk := call.Call.Method.Pkg(); pk != nil && pk.Path() == "github.com/google/gopacket" {
+					add = append(add, call)
+				}
+			}
+		})
+		if len(dec) == 0 || len(add) == 0 {
+			continue
+		}
+		name := c.FnName(fn)
+		r.Fn(name)
+		ok, n := true, 0
+		pos := add[0].Pos()
+		complete := enumPaths(fn, 1, 20000, func(p CPath) {
+			idx := pathIndex(p)
+			for _, a := range add {
+				at, on := idx[a]
+				if !on {
+					continue
+				}
+				n++
+				// the decode that precedes it on the path, and what the path found about its error
+				// before the layer was added
+				found := false
+				for _, d := range dec {
+					dt, don := idx[d]
+					if !don || dt > at {
+						continue
+					}
+					for _, tk := range p.Ifs() {
+						it, ion := idx[tk.If]
+						if !ion || it > at {
+							continue
+						}
+						op, x, y, neg, isBin := condOf(tk.If.Cond)
+						if !isBin || (op != token.NEQ && op != token.EQL) {
+							continue
+						}
+						var e ssa.Value
+						if isNilConst(y) {
+							e = x
+						} else if isNilConst(x) {
+							e = y
+						}
+						if e == nil || !(e == ssa.Value(d) || p.Resolve(e) == ssa.Value(d)) {
+							continue
+						}
+						arm := tk.Arm != neg
+						if (op == token.EQL) == arm {
+							found = true // found nil before the layer is added
+						}
+					}
+				}
+				if !found {
+					ok, pos = false, a.Pos()
+				}
+			}
+		})
+		if !complete {
+			r.Unk(name+"|paths", fn.Pos(), "too many paths")
+			continue
+		}
+		if n == 0 {
+			continue
+		}
+		r.Check(ok, name+"|AddLayer after a successful decode", pos, "the layer is added only on paths that found the decode error nil", "a layer is added to the packet although its DecodeFromBytes may have failed: code that detects rejection by the layer's absence (packet.Layer(T) == nil) takes the half-decoded layer for a valid one")
 	}
 }
